@@ -18,7 +18,7 @@ func init() {
 C01-a release: Remove, Rename (which may replace an existing entry) and OpenFile (O_TRUNC) reach a call that marks clusters unused (SetCluster(_, UnusedMarker())) whose chain head derives from a directory entry taken from the listing - not only from the parent directory's own chain.
 C01-b persist: in every exported mutator of the FAT FileSystem/File types, each mutation of a directory's entry list (create/remove/rename/label entry) and each store to a field of an existing directory entry (size, times, attribute flags, first cluster) is followed, on every path to a success return, by the call that writes that directory to the device.
 C01-c ENOSPC atomicity: in the allocator the out-of-space return (selected by comparing the number of free clusters found with the number needed) is never preceded by a FAT mutation.
-C01-d the allocator's free-cluster scan starts at a constant, or at a hint field that every function marking clusters free also stores: released clusters stay visible to later allocations.
+C01-d the allocator's free-cluster scan starts at a constant, or at a hint field that every function marking clusters free also stores (any other start - a parameter, the end of the chain being extended - is a violation unless another scan starts at a constant): released clusters stay visible to later allocations.
 C01-e writeDirectoryEntries writes every cluster of the directory's chain (no iteration of its cluster loop ends without a device write), so that clusters beyond a shorter listing do not keep old entries.
 Also shares C10-d (a Read never returns more than remains). Decides these clauses, not equality with a reference model.`)
 	register("C08", runC08, `Structural clauses of on-disk FAT soundness, decided statically.
